@@ -203,6 +203,9 @@ pub const TYPED_KINDS: &[&str] = &[
     "h1_isutcnt_bad",
     "footer_big_number",
     "footer_unicode_space",
+    "desig_bad_char",
+    "desig_short",
+    "desig_two_bad",
 ];
 
 fn eff<'a>(f: &'a mut RawFile) -> &'a mut RawBlock {
@@ -306,6 +309,39 @@ pub fn typed(orig: &RawFile, kind: &str, arg: u64) -> Option<Vec<u8>> {
             let room = 256 - b.chars.len();
             let v = b.chars.len() + (a / n) % room;
             b.ttinfo[k * 6 + 5] = v as u8;
+        }
+        "desig_bad_char" | "desig_short" | "desig_two_bad" => {
+            let b = eff(&mut f);
+            let n = b.ttinfo.len() / 6;
+            if n == 0 {
+                return None;
+            }
+            // (start, length) of the designation of type k, if it has a terminating NUL
+            let span = |b: &RawBlock, k: usize| -> Option<(usize, usize)> {
+                let i = b.ttinfo[k * 6 + 5] as usize;
+                if i >= b.chars.len() {
+                    return None;
+                }
+                b.chars[i..].iter().position(|&x| x == 0).map(|p| (i, p))
+            };
+            let k = a % n;
+            let (i, len) = span(b, k)?;
+            if len < 3 {
+                return None;
+            }
+            let bad = [b'!', b' ', 0x80, b'_', b'.', b'/'][(a / n) % 6];
+            match kind {
+                "desig_bad_char" => b.chars[i + (a / n / 6) % len] = bad,
+                "desig_short" => b.chars[i + 1 + (a / n) % 2] = 0,
+                _ => {
+                    // two designations, disjoint in the table, bad for different reasons (a reader that
+                    // reports "the" error of such a file must not let the choice depend on anything but the bytes)
+                    let k2 = (0..n).map(|d| (k + 1 + d) % n).find(|&k2| span(b, k2).map_or(false, |(j, l2)| l2 >= 3 && (j + l2 < i || i + len < j)))?;
+                    let (j, _) = span(b, k2)?;
+                    b.chars[i] = bad;
+                    b.chars[j + 2] = 0;
+                }
+            }
         }
         "no_nul" => {
             let b = eff(&mut f);
